@@ -12,7 +12,9 @@
     * `bytes(witprog)` with an element ≥ 256, range checks of the two `from_bytes` → `.valueerr`
     * whatever the bech32 / base58 / script layers can raise is passed through.
   The model is written for the repaired `CBech32BitcoinAddress.from_bytes` (D9: a witness version
-  other than 0 raises CBitcoinAddressError instead of failing `assert witver == 0`).
+  other than 0 raises CBitcoinAddressError instead of failing `assert witver == 0`) and for the
+  property-conforming bare-pubkey branch (D18: the whole 65-byte uncompressed key is hashed; the
+  shipped code slices `scriptPubKey[1:65]`, 64 bytes — pinned by test_wallet.py, a known finding).
   Mathlib-free (linked into btcmodel).
 -/
 import BtcVerif.Basic.Outcome
@@ -27,21 +29,35 @@ open BtcVerif.Spec.Addr (AddrClass Addr)
 
 /-! ### chain selection -/
 
-/-- the two module globals -/
-structure ChainState where
-  params : ChainParams          -- bitcoin.params
-  coreparams : ChainParams      -- bitcoin.core.coreparams
+/-- which Python object `bitcoin.core.coreparams` is: an instance of a core-only class
+    (`CoreMainParams()` …: only the core fields exist), or the very instance `bitcoin.params` holds -/
+inductive CoreObj
+  | coreOnly (c : Addr.CoreFields)
+  | full (p : ChainParams)
 deriving DecidableEq, Repr
 
-/-- state after `import bitcoin` -/
-def initState : ChainState := ⟨mainnet, mainnet⟩
+/-- the core fields of either kind of object (what `bitcoin.core` reads) -/
+def CoreObj.fields : CoreObj → Addr.CoreFields
+  | .coreOnly c => c
+  | .full p => Addr.coreFields p
+
+/-- the two module globals.  wallet.py and bech32.py read `bitcoin.params` only (BASE58_PREFIXES,
+    BECH32_HRP); `bitcoin.core.coreparams` is read by the consensus checks of bitcoin.core -/
+structure ChainState where
+  params : ChainParams          -- bitcoin.params
+  coreparams : CoreObj          -- bitcoin.core.coreparams
+deriving DecidableEq, Repr
+
+/-- state after `import bitcoin`: `params = MainParams()`, `coreparams = CoreMainParams()` — two
+    different objects, the second without prefixes / HRP / magic -/
+def initState : ChainState := ⟨mainnet, .coreOnly (Addr.coreFields mainnet)⟩
 
 /-- `bitcoin.core._SelectCoreParams(name)`: new value of `coreparams`, or ValueError -/
-def selectCore (name : String) : Res ChainParams :=
-  if name = "mainnet" then .ok mainnet
-  else if name = "testnet" then .ok testnet
-  else if name = "regtest" then .ok regtest
-  else if name = "signet" then .ok signet
+def selectCore (name : String) : Res CoreObj :=
+  if name = "mainnet" then .ok (.coreOnly (Addr.coreFields mainnet))
+  else if name = "testnet" then .ok (.coreOnly (Addr.coreFields testnet))
+  else if name = "regtest" then .ok (.coreOnly (Addr.coreFields regtest))
+  else if name = "signet" then .ok (.coreOnly (Addr.coreFields signet))
   else .error .valueerr
 
 /-- `bitcoin.SelectParams(name)`: the state it leaves and the exception it raises, if any -/
@@ -50,10 +66,11 @@ def selectParams (st : ChainState) (name : String) : ChainState × Option Exc :=
   | .error e => (st, some e)                       -- raised before anything was assigned
   | .ok core =>
     let st := { st with coreparams := core }
-    if name = "mainnet" then (⟨mainnet, mainnet⟩, none)          -- params = coreparams = MainParams()
-    else if name = "testnet" then (⟨testnet, testnet⟩, none)
-    else if name = "regtest" then (⟨regtest, regtest⟩, none)
-    else if name = "signet" then (⟨signet, signet⟩, none)
+    -- params = bitcoin.core.coreparams = XParams(): one object for both globals
+    if name = "mainnet" then (⟨mainnet, .full mainnet⟩, none)
+    else if name = "testnet" then (⟨testnet, .full testnet⟩, none)
+    else if name = "regtest" then (⟨regtest, .full regtest⟩, none)
+    else if name = "signet" then (⟨signet, .full signet⟩, none)
     else (st, some .valueerr)
 
 /-- a history of `SelectParams` calls (exceptions caught by the caller) -/
@@ -209,7 +226,7 @@ def p2pkhFromScript (H160 : Bytes → Bytes) (chain : ChainParams) (spk : Bytes)
     else if acceptBareChecksig then
       let pubkey : Option Bytes :=
         if s.length == 35 && s[0]? == some 0x21 && s[34]? == some 0xac then some (slice s 1 34)
-        else if s.length == 67 && s[0]? == some 0x41 && s[66]? == some 0xac then some (slice s 1 65)
+        else if s.length == 67 && s[0]? == some 0x41 && s[66]? == some 0xac then some (slice s 1 66)  -- D18: shipped code has [1:65]
         else none
       match pubkey with
       -- from_pubkey(pubkey, accept_invalid=True) → P2PKHBitcoinAddress.from_bytes(Hash160(pubkey))
